@@ -2,6 +2,10 @@ import OtelVerif.Lemmas.C01
 import OtelVerif.Lemmas.C01Drain
 import OtelVerif.Lemmas.C01Codec
 import OtelVerif.Lemmas.C01Trace
+import OtelVerif.Lemmas.C01Bytes
+import OtelVerif.Lemmas.C01Size
+import OtelVerif.Model.C01Classify
+import OtelVerif.Lemmas.C01Err
 /-!
 # C01 — the persistent sending queue never loses an accepted request across crashes
 
@@ -29,10 +33,32 @@ theorem C01_offer_ok_accepted (c : Cfg) (m : Mem) (r : Req) (h : c.ph = .live m 
     (hok : (fire c (.offer r)).res = .offerOk) : r ∈ (fire c (.offer r)).accepted := by
   simp only [fire, h] at hok ⊢
   unfold doOffer at hok ⊢
+  by_cases hfull : m.size + c.k.sizeof r > c.k.cap
+  · rw [if_pos hfull] at hok
+    unfold doOfferFull at hok
+    split at hok
+    · cases hok
+    · split at hok <;> cases hok
+  · rw [if_neg hfull]; exact List.mem_cons_self
+
+/-- `blockOnOverflow`: an offer that had to wait is in `accepted` exactly when its wake-up found room and committed the
+enqueue batch (`Offer` returned nil) — blocked, re-blocked, rejected-as-too-large and cancelled offers never are -/
+theorem C01_blocked_offer_accepted_on_wake (c : Cfg) (m : Mem) (r : Req) (rest : List Req) (h : c.ph = .live m .idle)
+    (hw : m.waiting = r :: rest) (hok : (fire c .wake).res = .offerOk) :
+    r ∈ (fire c .wake).accepted := by
+  simp only [fire, h] at hok ⊢
+  unfold doWake at hok ⊢
+  rw [hw] at hok ⊢
   dsimp only at hok ⊢
   by_cases hfull : m.size + c.k.sizeof r > c.k.cap
   · rw [if_pos hfull] at hok; cases hok
   · rw [if_neg hfull]; exact List.mem_cons_self
+
+/-- waiting, being woken without room, and being cancelled change nothing durable -/
+theorem C01_blocking_touches_no_storage (c : Cfg) (j : Nat) :
+    (fire c (.cancel j)).st = c.st ∧ (fire c (.cancel j)).accepted = c.accepted := by
+  simp only [fire]
+  split <;> exact ⟨rfl, rfl⟩
 
 /-- **A request leaves storage only after a final hand-off.** -/
 theorem C01_delete_only_final (k : Conf) (ls : List Label) :
@@ -119,36 +145,118 @@ theorem C01_drain_reachable (k : Conf) (ls : List Label) :
 
 /-! ### index codecs -/
 
-open Codec in
-theorem C01_index_codec (v : Nat) (h : v < 2 ^ 64) : bytesToItemIndex (some (itemIndexToBytes v)) = .ok v := by
-  unfold bytesToItemIndex itemIndexToBytes
-  have hl := length_leBytes 8 v
-  simp only [hl, Nat.lt_irrefl, if_false]
-  rw [List.take_of_length_le (by omega), leVal_leBytes]
-  have : (256 : Nat) ^ 8 = 2 ^ 64 := by decide
-  rw [this, Nat.mod_eq_of_lt h]
+theorem C01_index_codec (v : Nat) (h : v < 2 ^ 64) :
+    Codec.bytesToItemIndex (some (Codec.itemIndexToBytes v)) = .ok v := Codec.index_codec v h
 
-open Codec in
 theorem C01_index_array_codec (xs : List Nat) (hlen : xs.length < 2 ^ 32) (hx : ∀ x ∈ xs, x < 2 ^ 64) :
-    bytesToItemIndexArray (itemIndexArrayToBytes xs) = .ok xs := by
-  unfold bytesToItemIndexArray itemIndexArrayToBytes
-  have h4 := length_leBytes 4 xs.length
-  have hlenb : (leBytes 4 xs.length ++ xs.flatMap (leBytes 8)).length = 4 + xs.length * 8 := by
-    rw [List.length_append, h4, length_flatMap_leBytes]
-  have hsize : leVal ((leBytes 4 xs.length ++ xs.flatMap (leBytes 8)).take 4) = xs.length := by
-    rw [take_leBytes_append, leVal_leBytes]
-    have : (256 : Nat) ^ 4 = 2 ^ 32 := by decide
-    rw [this, Nat.mod_eq_of_lt hlen]
-  have hdrop : (leBytes 4 xs.length ++ xs.flatMap (leBytes 8)).drop 4 = xs.flatMap (leBytes 8) :=
-    drop_leBytes_append 4 _ _
-  rw [if_neg (by omega), if_neg (by omega)]
-  dsimp only
-  rw [hsize, hdrop]
-  cases xs with
-  | nil => rfl
-  | cons x t =>
-    rw [if_neg (by simp), if_neg (by rw [length_flatMap_leBytes]; omega)]
-    rw [chunks_flatMap _ hx]
+    Codec.bytesToItemIndexArray (Codec.itemIndexArrayToBytes xs) = .ok xs := Codec.index_array_codec xs hlen hx
+
+/-! ### glue: which `outcome` a reported error stands for
+
+The label `done i outcome` abstracts `experr.IsShutdownErr(err)`.  The assumption tied by the harness (every error tree
+handed to the real `OnDone` is classified by the real `IsShutdownErr`, by construction, and by `outcomeOf` below — all
+three must agree, `C01/classify/…`) is: classification = "the tree contains a shutdown error", for every wrap / join
+tree (a request exported in several batch parts reports `multierr.Append` of the part errors). -/
+
+theorem C01_classification_iff (t : ErrTree) : t.isShutdown = true ↔ t.ContainsShutdown := by
+  induction t with
+  | plain => simp [ErrTree.isShutdown]; intro h; cases h
+  | shutdown t _ => simp [ErrTree.isShutdown]; exact .here t
+  | wrap t ih =>
+    simp only [ErrTree.isShutdown]
+    exact ⟨fun h => .wrap (ih.mp h), fun h => by cases h with | wrap h => exact ih.mpr h⟩
+  | join a b iha ihb =>
+    simp only [ErrTree.isShutdown, Bool.or_eq_true]
+    constructor
+    · rintro (h | h)
+      · exact .left b (iha.mp h)
+      · exact .right a (ihb.mp h)
+    · intro h
+      cases h with
+      | left _ h => exact Or.inl (iha.mpr h)
+      | right _ h => exact Or.inr (ihb.mpr h)
+
+/-- a reported error keeps the request stored (label `shutdownErr`) exactly when it contains a shutdown error; nil and
+every other tree finalise it -/
+theorem C01_outcome_shutdown_iff (t : ErrTree) : outcomeOf (some t) = .shutdownErr ↔ t.ContainsShutdown := by
+  rw [← C01_classification_iff]
+  unfold outcomeOf
+  cases h : t.isShutdown <;> simp [h]
+
+example : outcomeOf (some (.join (.wrap .plain) (.join (.shutdown .plain) (.shutdown .plain)))) = .shutdownErr := by decide
+example : outcomeOf (some (.join (.wrap .plain) .plain)) = .final ∧ outcomeOf none = .final := by decide
+
+/-! ### size bookkeeping of a request-sized queue across start-up, recovery and running
+
+(For the items sizer the restored value comes from the `si` snapshot and "is allowed to be inaccurate" by the code's own
+comment; there the differential compares `Size()` after every operation, start-ups with stale snapshots included.) -/
+
+/-- while start-up and recovery run, `queueSize = writeIndex - readIndex` exactly (one per stored, not yet dequeued request,
+recovered ones included); afterwards `queueSize` never exceeds queued + dispatched: capacity is never leaked -/
+theorem C01_size_reqSized (k : Conf) (hk : k.reqSized = true) (ls : List Label) (m : Mem) (pc : Pc)
+    (h : (run k ls).ph = .live m pc) :
+    m.size ≤ m.wi - m.ri + m.cdi.length ∧ (startupPc pc = true → m.size = m.wi - m.ri) :=
+  let hs := sizeInv_run k hk ls m pc h
+  ⟨hs.running, fun hp => (hs.startup hp).1⟩
+
+/-- the storage call that completes a start-up (recovery included, whatever deaths came before) leaves an exact counter:
+`queueSize = writeIndex - readIndex` = number of requests waiting in the queue -/
+theorem C01_size_exact_when_start_completes (k : Conf) (hk : k.reqSized = true) (ls : List Label) (m : Mem) (pc : Pc)
+    (h : (run k ls).ph = .live m pc) (hsu : startupPc pc = true) (m' : Mem)
+    (hidle : (fire (run k ls) .tick).ph = .live m' .idle) : m'.size = m'.wi - m'.ri :=
+  (size_exact_on_completion (by rw [run_k]; exact hk) (inv_run k ls) h (sizeInv_run k hk ls m pc h) hsu hidle).1
+
+/-! ### byte-level tie: the abstract store is what start-up decodes from the bytes the code writes
+
+`Gen/PQKeys.lean` is regenerated from `persistent_queue.go` on every run (key names, radix of the item keys, widths of
+the codecs, back-up periods — the latter are used by the model itself). -/
+
+open OtelVerif.Gen in
+/-- the durable format is pinned: a renamed or reshuffled key would make a newer binary ignore (and later overwrite) what
+an older incarnation stored -/
+theorem C01_gen_key_names :
+    PQKeys.readIndexKey.toList = "ri".toList ∧ PQKeys.writeIndexKey.toList = "wi".toList ∧
+    PQKeys.dispatchedKey.toList = "di".toList ∧ PQKeys.queueSizeKey.toList = "si".toList := by decide
+
+/-- the four key names are pairwise different and none of them is a decimal numeral, so no item key
+(`strconv.FormatUint(index, 10)`) can collide with them -/
+theorem C01_gen_keys_ok : genKeysOK = true := by decide
+
+open OtelVerif.Gen in
+/-- the constants the codec model (`Model/C01Codec.lean`) and `itemKey` are written with are those of the source -/
+theorem C01_gen_codec_constants :
+    PQKeys.indexWidth = 8 ∧ PQKeys.arrayPrefixWidth = 4 ∧ PQKeys.arrayElemWidth = 8 ∧ PQKeys.itemKeyRadix = 10 := by decide
+
+/-- **Refinement to bytes.**  For every store that satisfies the store invariant (every reachable one does) and whose write
+index fits `uint64` and dispatched list fits the `uint32` length prefix: encoding it under the real key names with
+the real index codecs and any lawful request `Encoding`, and decoding that byte map the way start-up and dequeue do,
+gives back exactly the abstract indexes, dispatched list and items the theorems above speak about. -/
+theorem C01_bytes_refine (rc : ReqCodec) (s : Store) (hst : StInv s) (hW : s.W < 2 ^ 64) (hlen : s.di.length < 2 ^ 32) :
+    readIndexes (encodeStore rc s) = (s.R, s.W) ∧ readDi (encodeStore rc s) = s.di ∧
+    ∀ i, readItem rc (encodeStore rc s) i = s.items i := by
+  have hle := hst.le
+  refine ⟨readIndexes_encode rc s hst.opt ?_ ?_, readDi_encode rc s hlen ?_, readItem_encode rc s⟩
+  · intro v hv
+    have hwi : s.wi ≠ none := fun h => by rw [hst.opt h] at hv; cases hv
+    have : s.R = v := by
+      unfold Store.R
+      cases h : s.wi with
+      | none => exact absurd h hwi
+      | some w => simp [hv]
+    omega
+  · intro v hv
+    have : s.W = v := by simp [Store.W, hv]
+    omega
+  · intro x hx
+    have := hst.dlt x hx
+    omega
+
+theorem C01_bytes_refine_reachable (rc : ReqCodec) (k : Conf) (ls : List Label)
+    (hW : (run k ls).st.W < 2 ^ 64) (hlen : (run k ls).st.di.length < 2 ^ 32) :
+    readIndexes (encodeStore rc (run k ls).st) = ((run k ls).st.R, (run k ls).st.W) ∧
+    readDi (encodeStore rc (run k ls).st) = (run k ls).st.di ∧
+    ∀ i, readItem rc (encodeStore rc (run k ls).st) i = (run k ls).st.items i :=
+  C01_bytes_refine rc _ (C01_reachable_store_inv k ls) hW hlen
 
 /-! ### the search oracle is sound -/
 
@@ -159,13 +267,88 @@ theorem C01_check_sound (t : List Ev) : checkStored t = true → StoredOK t := c
 /-- … and clause 1 (every accepted request was handed over) -/
 theorem C01_check_handed_sound (t : List Ev) : checkHanded t = true → HandedOK t := checkHanded_sound t
 
+def exA : Req := ⟨1, 1⟩
+def exB : Req := ⟨2, 1⟩
+def exC : Req := ⟨3, 1⟩
+
+/-! ### EXTENSION beyond the property's quantifier: storage calls that return an error
+
+Property C01 quantifies over process DEATHS at storage-operation boundaries.  The theorems above are that property, in
+full.  What follows does not claim or weaken it: `Model/C01Err.lean` lets, in addition, any storage call RETURN AN ERROR
+(without effect on the stored data) and mirrors the error branches of the code; the harness ties it by the same exact
+differential with errors injected at the k-th call (no property oracle judges those scripts).  The results say where
+the code as it is gives requests up when storage calls fail, and that it loses them nowhere else. -/
+
+/-- **Losses only at the give-up points.**  For every mix of operations, deaths and failing storage calls: unless the
+very first call of some start-up (`Batch(get ri, get wi)`) has failed (`poisoned`: the code then restarts both indexes
+from 0 on top of the stored data), every accepted request is finalised, or recoverable from storage, or in `dropped` —
+the ghost list filled at exactly three places of `Model/C01Err.lean`: (1) the dequeue batch of `getNextItem` failed
+(the code has advanced `readIndex` and goes on to delete the item), (2) `Get di` or the retrieve batch of recovery failed
+(recovery skipped, the next dequeue overwrites `di`), (3) the move batch of one dispatched item failed (a later batch
+rewrites `di` without it).  Every other failing call — enqueue, the completion batches and their two fallbacks in any
+combination, size back-ups, shutdown, the clean-up batches — loses nothing. -/
+theorem C01_ext_errors_losses_only_at_giveup_points (k : Conf) (ls : List LabelE) (hp : (runE k ls).poisoned = false) :
+    ∀ r ∈ (runE k ls).base.accepted,
+      r ∈ (runE k ls).base.finalised ∨ Recoverable (runE k ls).base.st r ∨ r ∈ (runE k ls).dropped := by
+  intro r hr
+  rcases invE_runE k ls with h | h
+  · rw [hp] at h; cases h
+  · rcases h.main r hr with (h1 | h1) | h1
+    · exact Or.inl h1
+    · exact Or.inr (Or.inr h1)
+    · exact Or.inr (Or.inl h1)
+
+/-- without failing calls the extended machine is the machine of the property (nothing dropped, never poisoned) -/
+theorem C01_ext_errors_refines_base (k : Conf) (ls : List Label) :
+    (runE k (ls.map .op)).base = run k ls ∧ (runE k (ls.map .op)).dropped = [] ∧
+    (runE k (ls.map .op)).poisoned = false :=
+  let h := runE_ops k ls
+  ⟨h.1, h.2.1, h.2.2.1⟩
+
+section ErrWitnesses
+open LabelE Label
+
+/-- dequeue batch fails → `itemDispatchingFinish` deletes the first request; the second one is handed out -/
+def exErrDequeue : List LabelE :=
+  [op start, op tick, op (offer exA), op (offer exB), fail true, op read, op tick, op tick, op tick]
+/-- `Get di` fails at start-up → recovery skipped; the next dequeue overwrites `di` -/
+def exErrGetDi : List LabelE :=
+  [op start, op tick, op (offer exA), op (offer exB), op read, op tick, op crash,
+   op start, fail true, op tick, op read, op tick]
+/-- the move batch of the first dispatched item fails, the second succeeds and writes `di = []` -/
+def exErrMove : List LabelE :=
+  [op start, op tick, op (offer exA), op (offer exB), op read, op tick, op read, op tick, op crash,
+   op start, op tick, op tick, fail true, op tick, op tick]
+/-- `Batch(get ri, get wi)` fails → both indexes restart from 0, the next offer overwrites key 0 -/
+def exErrIndexRead : List LabelE :=
+  [op start, op tick, op (offer exA), op (offer exB), op crash, fail true, op start, op tick, op (offer exC)]
+
+end ErrWitnesses
+
+/-- **The unrestricted statement is false for the code as it is** (kernel-checked witnesses; each is replayed on the real
+queue as corpus cases 8, 10, 11 of the harness): a failing dequeue batch, a failing `Get di`, a failing move batch each
+leave an accepted request neither finalised nor recoverable. -/
+theorem C01_ext_errors_no_loss_fails :
+    ¬ (∀ (k : Conf) (ls : List LabelE), ∀ r ∈ (runE k ls).base.accepted,
+        r ∈ (runE k ls).base.finalised ∨ Recoverable (runE k ls).base.st r) := by
+  intro h
+  rcases h { cap := 8 } exErrDequeue exA (by decide) with hf | hr
+  · revert hf; decide
+  · have := recoverableB_of_recoverable hr
+    revert this; decide
+
+example : (runE { cap := 8 } exErrDequeue).dropped = [exA] ∧ (runE { cap := 8 } exErrDequeue).base.handed = [exB] := by decide
+example : recoverableB (runE { cap := 8 } exErrGetDi).base.st exA = false ∧
+    (runE { cap := 8 } exErrGetDi).dropped = [exA] ∧ exA ∈ (runE { cap := 8 } exErrGetDi).base.accepted := by decide
+example : recoverableB (runE { cap := 8 } exErrMove).base.st exA = false ∧
+    recoverableB (runE { cap := 8 } exErrMove).base.st exB = true ∧ (runE { cap := 8 } exErrMove).dropped = [exA] := by decide
+example : (runE { cap := 8 } exErrIndexRead).poisoned = true ∧
+    recoverableB (runE { cap := 8 } exErrIndexRead).base.st exA = false := by decide
+
 /-! ### non-vacuity -/
 
 section Examples
 
-def exA : Req := ⟨1, 1⟩
-def exB : Req := ⟨2, 1⟩
-def exC : Req := ⟨3, 1⟩
 
 /-- enqueue A B C, dequeue A and B, die; restart and die inside recovery right after the first move batch;
 restart completely; dequeue one and complete it with a shutdown error; die -/
@@ -194,6 +377,23 @@ example : Codec.bytesToItemIndexArray [2,0,0,0, 1,0,0,0,0,0,0,0] = .error "inval
 -- the trace checker rejects a trace with a lost request and accepts the repaired behaviour
 example : checkStored [.accept 1, .dump [1], .hand 1, .dump [1], .dump []] = false := by decide
 example : checkStored [.accept 1, .dump [1], .hand 1, .final 1, .dump []] = true := by decide
+
+-- the hypotheses of the byte-level refinement are met by the store of the example script (a lawful toy `Encoding`)
+def exCodec : ReqCodec :=
+  { enc := fun r => [r.id, r.size],
+    dec := fun b => match b with | [a, b] => some ⟨a, b⟩ | _ => none,
+    law := fun _ => rfl }
+example : readDi (encodeStore exCodec (run { cap := 8 } exScript).st) = [2] :=
+  (C01_bytes_refine_reachable exCodec { cap := 8 } exScript (by decide) (by decide)).2.1.trans (by decide)
+
+-- blockOnOverflow: capacity 1, the second offer waits; after the first request is finalised the wake-up commits it
+def exBlockScript : List Label :=
+  [.start, .tick, .offer exA, .offer exB, .read, .tick, .done 0 .final, .wake]
+example : (run { cap := 1, block := true } (exBlockScript.take 4)).res = .offerBlocked ∧
+    (run { cap := 1, block := true } (exBlockScript.take 4)).accepted = [exA] := by decide
+example : (run { cap := 1, block := true } exBlockScript).res = .offerOk ∧
+    (run { cap := 1, block := true } exBlockScript).accepted = [exB, exA] ∧
+    (run { cap := 1, block := true } exBlockScript).st.items 1 = some exB := by decide
 
 end Examples
 
